@@ -2387,7 +2387,15 @@ class ConstEval(object):
                     except Exception:
                         return Unknown('format')
         q = self._callee_name(m, f, env, loc)
-        args = [self._eval(m, a, env, loc) for a in e.args]
+        args = []
+        for a in e.args:
+            if isinstance(a, ast.Starred):
+                sv = self._eval(m, a.value, env, loc)
+                if not isinstance(sv, (list, tuple)):
+                    raise _Unsupported('*%s' % src(a.value))
+                args.extend(sv)
+            else:
+                args.append(self._eval(m, a, env, loc))
         kwargs = {k.arg: self._eval(m, k.value, env, loc)
                   for k in e.keywords if k.arg}
         if q in ('copy.deepcopy', 'copy.copy') and len(args) == 1:
@@ -2436,11 +2444,17 @@ class ConstEval(object):
                 body[0].value is None:
             return _NOFOLD
         a = fn.args
-        if a.vararg or a.kwarg or a.posonlyargs:
+        if a.kwarg or a.posonlyargs:
             return _NOFOLD
         names = [x.arg for x in a.args]
+        extra = None
         if len(args) > len(names):
-            return _NOFOLD
+            if not a.vararg:
+                return _NOFOLD
+            extra = tuple(args[len(names):])
+            args = args[:len(names)]
+        elif a.vararg:
+            extra = ()
         menv = self.module_env(head)
         if menv is None:
             return _NOFOLD
@@ -2463,6 +2477,8 @@ class ConstEval(object):
                         return _NOFOLD
                     bound[nme] = self._eval(fm, defaults[nme], menv, loc)
             env2.update(bound)
+            if a.vararg:
+                env2[a.vararg.arg] = extra
             return self._eval(fm, body[0].value, env2, loc)
         except _Unsupported:
             return _NOFOLD
